@@ -13,7 +13,7 @@ CHUNK = 8
 RULE = ('Cases: FASTA record sets built with `ska build -k K [--single-strand]` and read out with `ska nk --full-info` (a third also with plain `ska nk` and `ska nk -v`, whose header fields must agree), '
         'compared with the set-based reference model (arms -> IUPAC code of the set of middles; header fields). '
         'Forced kinds for every odd k in 5..63 and both strand modes: records of length k-1/k/k+1, N exactly k+1/k/k+2 '
-        'from the record end, one k-mer repeated with 2..4 middles in both orientations, self-complementary arms, a record '
+        'from the record end, scaffold-style records (stretches of bases between runs of N, an N exactly a stride after an N of the run before it, strides around powers of two, round numbers), one k-mer repeated with 2..4 middles in both orientations, self-complementary arms, a record '
         'and its reverse complement, input with no window (must be refused); plus random records (mixed case, N runs, low-complexity runs and tandem repeats around the arm length, '
         'wrapping, a tenth with CRLF line ends, a tenth with a sample spread over two FASTA files of a file list), multi-sample builds, three inputs per run of 6..80 kb (up to 300 kb in thorough; tables of thousands to hundreds of thousands of rows), builds of 20..160 samples with --threads 2..16, and several builds with different k inside one process (library route, harness).  A case is non-trivial when the model has at least one window; distinct = '
         'distinct (k, strand mode, record set).')
@@ -21,10 +21,10 @@ ASSUMPTIONS = ['the reference model in vlib/model.py states the specification co
                'file names s<i>.fa give sample names s<i>',
                'a 15% slice is also run on the overflow-checked build; its panics are diagnostics, the release build decides']
 REQUIRED = {'quick': ['kind:len', 'kind:nend', 'kind:repeat', 'kind:pal', 'kind:rcrec', 'kind:empty', 'kind:random',
-                      'kind:multi', 'kind:manythreads', 'kind:inprocess', 'inprocess_builds_compared', 'palindromic_rows', 'refusals_correct', 'width64', 'width128', 'nk_without_full_info_compared', 'kind:huge', 'tables_over_4096_rows', 'crlf_inputs', 'samples_given_as_two_fasta_files', 'two_file_samples_whose_first_file_has_no_window', 'parallel_builds_with_two_file_samples']}
+                      'kind:multi', 'kind:gaps', 'gap_pairs_a_stride_apart', 'kind:manythreads', 'kind:inprocess', 'inprocess_builds_compared', 'palindromic_rows', 'refusals_correct', 'width64', 'width128', 'nk_without_full_info_compared', 'kind:huge', 'tables_over_4096_rows', 'crlf_inputs', 'samples_given_as_two_fasta_files', 'two_file_samples_whose_first_file_has_no_window', 'parallel_builds_with_two_file_samples']}
 REQUIRED['thorough'] = REQUIRED['quick']
 
-KINDS = ['len', 'nend', 'repeat', 'pal', 'rcrec', 'empty']
+KINDS = ['len', 'nend', 'repeat', 'pal', 'rcrec', 'empty', 'gaps']
 
 
 def builds(tier):
@@ -39,7 +39,7 @@ def plan(tier, seed, rng, scale):
                 descs.append({'kind': kind, 'k': k, 'rc': rcmode, 'seed': rng.getrandbits(32)})
     nrand = int((12000 if tier == 'quick' else 60000) * scale)
     for i in range(nrand):
-        kind = 'multi' if i % 5 == 0 else ('long' if (tier == 'thorough' and i % 50 == 1) else 'random')
+        kind = 'multi' if i % 5 == 0 else ('long' if (tier == 'thorough' and i % 50 == 1) else ('gaps' if i % 20 == 3 else 'random'))
         descs.append({'kind': kind, 'k': rng.choice(G.ALL_K), 'rc': rng.random() < 0.6, 'seed': rng.getrandbits(32)})
     for i, d in enumerate(descs):
         d['chk'] = (i % 7 == 0)
@@ -123,6 +123,25 @@ def gen_records(desc):
             recs = [G.rseq(rng, k - 1) + 'N' + G.rseq(rng, rng.randint(1, k - 1))]
         else:
             recs = [G.rseq(rng, rng.randint(1, k - 1)) for _ in range(3)]
+        return [recs]
+    if kind == 'gaps':
+        # scaffold-style records: stretches of bases between runs of N, with an N exactly a stride S after some N of the run
+        # before it (S around powers of two, round numbers and k), so that any block-wise or strided treatment of gaps that
+        # looks at positions S apart meets unknown bases at both; between the two there are up to S-1 good bases
+        recs = []
+        for _ in range(rng.randint(1, 2)):
+            S = rng.choice([8, 16, 32, 64, 100, 128, 256, 512, 1000, 1024]) + rng.choice([0, 0, 0, -1, 1])
+            t = G.rseq(rng, rng.choice([0, 1, h, k - 1, k, k + 1, rng.randint(0, 3 * k)]))
+            for _j in range(rng.randint(1, 4)):
+                r = rng.choice([1, 2, 2, 3, 5, rng.randint(2, 40), S, S + 1, rng.randint(1, 2 * S)])
+                i_ = rng.randrange(r)
+                t += ''.join(rng.choice('NNNn') for _x in range(r))
+                stretch = S - (r - i_)
+                if stretch <= 0 or rng.random() < 0.15:
+                    stretch = rng.choice([k - 1, k, k + 1, rng.randint(1, 4 * k)])
+                t += G.rseq(rng, stretch)
+            t += rng.choice('Nn') * rng.choice([1, 1, 2, 7]) + G.rseq(rng, rng.choice([0, k - 1, k, k + 1, rng.randint(0, 300)]))
+            recs.append(t)
         return [recs]
     if kind == 'huge':
         n1 = rng.randint(desc['huge'] // 3, 2 * desc['huge'] // 3)
@@ -286,6 +305,16 @@ def run_case(desc, ctx):
     expected = M.table_of(samples, k, rcmode)
     must_refuse = any(not d for d in per_sample)
     res.count('kind:' + desc['kind'])
+    if desc['kind'] == 'gaps':
+        for recs_ in samples:
+            for t_ in recs_:
+                u_ = t_.upper()
+                ns_ = {i_ for i_, c_ in enumerate(u_) if c_ == 'N'}
+                for d_ in (8, 16, 32, 64, 100, 128, 256, 512, 1000, 1024):
+                    for e_ in (d_ - 1, d_, d_ + 1):
+                        if any((i_ + e_) in ns_ and u_[i_ + 1:i_ + e_].strip('N') for i_ in ns_):
+                            res.count('gap_pairs_a_stride_apart')
+                            res.see('gap_stride', e_)
     res.see('k', k)
     res.see('k_rc', '%d/%s' % (k, 'rc' if rcmode else 'ss'))
     res.count('width64' if k <= 31 else 'width128')
